@@ -1,12 +1,14 @@
-"""Tie B for the assembly loops: trace the real assembly functions on a small generic configuration and emit
+"""Tie B for the assembly loops: trace the real assembly functions on small generic configurations and emit
 (1) `lean/BemppVerif/Gen/AsmTraces.lean`: one Lean definition per traced result entry (atoms become applications of
-    function variables: `K_3_5_0_4` ↦ `Kf 3 5 0 4`, `qw_1` ↦ `qw 1`, …),
+    function variables: `Kf_3_5_0_4` ↦ `Kf 3 5 0 4`, `qw_1` ↦ `qw 1`, …),
 (2) `lean/BemppVerif/Gen/AsmMatch.lean`: theorems stating that the hand-written model `Model/Asm.lean`, instantiated at
-    the traced configuration, equals the traced entries (proved by unfolding + `ring`).
+    the traced configuration, equals the traced entries, and trace-level identities between different assemblers
+    (hypersingular = curl·curl × single layer, boundary operator between two grids = tested potential); all proved
+    by unfolding + `ring`.
 
-Configuration (same grid for test and trial): elements e0=(0,1,2), e1=(1,3,2) (edge-adjacent to e0), e2=(4,5,6) (disjoint);
-2 quadrature points; test space "P1-like" (nshape 3, local2global = vertex index, symbolic multipliers), trial space
-"DP0-like" (nshape 1, local2global = element index)."""
+Configuration "same grid": elements e0=(0,1,2), e1=(1,3,2) (edge-adjacent to e0), e2=(4,5,6) (disjoint from both);
+2 regular quadrature points; spaces: p1 (nshape 3, local2global = vertex index), dp1 (3e+i), dp0 (e), all with symbolic
+multipliers.  Configuration "two grids": test grid `t` with elements (0,1,2),(1,3,2), trial grid `s` with (0,1,2),(2,1,3)."""
 import os
 import re
 
@@ -18,6 +20,8 @@ from vlib.common import LEAN, GenError
 
 ELEMS = np.array([[0, 1, 2], [1, 3, 2], [4, 5, 6]]).T
 NE, NV, NQ = 3, 7, 2
+ELEMS_T = np.array([[0, 1, 2], [1, 3, 2]]).T
+ELEMS_S = np.array([[0, 1, 2], [2, 1, 3]]).T
 _VAR = re.compile(r"^([A-Za-z]+)((?:_\d+)*)$")
 
 
@@ -43,14 +47,15 @@ def lean_term(t):
     raise GenError(k)
 
 
-def atom_sig(terms):
-    """Function-variable binders for all atoms of the given terms: {name: arity}."""
-    ar = {}
+def atom_arities(terms, ar=None):
+    ar = {} if ar is None else ar
     for t in terms:
         for v in st.free_vars(t):
             if v.startswith("@"):
                 continue
             m = _VAR.match(v)
+            if not m:
+                raise GenError(f"unexpected atom {v}")
             n = len([s for s in m.group(2).split("_") if s])
             if ar.setdefault(m.group(1), n) != n:
                 raise GenError(f"atom {m.group(1)} used with two arities")
@@ -58,47 +63,104 @@ def atom_sig(terms):
 
 
 def binders(ar):
-    out = []
-    for name in sorted(ar):
-        typ = " → ".join(["Nat"] * ar[name] + ["K"])
-        out.append(f"({name} : {typ})")
-    return " ".join(out)
+    return " ".join(f"({name} : {' → '.join(['Nat'] * ar[name] + ['K'])})" for name in sorted(ar))
 
 
-class Config:
+class Space:
+    def __init__(self, kind, elems, role):
+        ne = elems.shape[1]
+        self.kind = kind
+        self.nshape = 1 if kind == "dp0" else 3
+        if kind == "dp0":
+            self.l2g = np.arange(ne).reshape(ne, 1)
+        elif kind == "dp1":
+            self.l2g = np.arange(3 * ne).reshape(ne, 3)
+        elif kind == "p1":
+            self.l2g = elems.T.copy()
+        else:
+            raise ValueError(kind)
+        self.ndofs = int(self.l2g.max()) + 1
+        self.mult = at.atoms((ne, self.nshape), ("mt" if role == "test" else "ms") + "_{0}_{1}")
+        self.shape_name = "p0_discontinuous" if kind == "dp0" else "p1_discontinuous"
+
+
+class Env:
+    """Symbolic grids, rules, registries shared by all traces of a run."""
+
     def __init__(self):
         import bempp_cl.core.numba_kernels as nk
         import bempp_cl.api.space.shapesets as sh
-        self.nk, self.sh = nk, sh
-        self.grid = at.SymGrid("", ELEMS, NV)
+        import bempp_cl.api.space.space as spacemod
+        self.nk, self.sh, self.spacemod = nk, sh, spacemod
+        self.g = at.SymGrid("", ELEMS, NV)
+        self.gt = at.SymGrid("t", ELEMS_T, 4)
+        self.gs = at.SymGrid("s", ELEMS_S, 4)
         self.qp, self.qw = at.quad_rule(NQ)
-        self.preg, self.nreg = at.Registry(), at.Registry()
-        self.mt = at.atoms((NE, 3), "mt_{0}_{1}")
-        self.ms = at.atoms((NE, 1), "ms_{0}_{1}")
         self.nmt = at.atoms((NE,), "nmt_{0}")
         self.nms = at.atoms((NE,), "nms_{0}")
-        self.l2g_test = ELEMS.T.copy()
-        self.l2g_trial = np.arange(NE).reshape(NE, 1)
-        # pre-register points and normals so that ids are structured:
-        #   point id   = e*NQ + q         (global image of regular quad point q on element e)
-        #   normal id  = e (test normal of e, with test multiplier),  NE + e (trial normal)
+        # singular rule: concatenated symbolic points / weights (8 columns each)
+        self.stp = np.empty((2, 8), dtype=object)
+        self.ssp = np.empty((2, 8), dtype=object)
+        self.sw = np.empty(8, dtype=object)
+        for i in range(8):
+            self.stp[0, i], self.stp[1, i] = st.Sym.var(f"stu_{i}"), st.Sym.var(f"stv_{i}")
+            self.ssp[0, i], self.ssp[1, i] = st.Sym.var(f"ssu_{i}"), st.Sym.var(f"ssv_{i}")
+            self.sw[i] = st.Sym.var(f"sw_{i}")
+        self.preg, self.nreg = at.Registry(), at.Registry()
+        # structured ids.  points: same grid regular: e*NQ+q  (0..5);  grid t: 10 + e*NQ+q;  grid s: 20 + e*NQ+q;
+        # singular test points on element e column i: 100 + 8*e + i; singular trial points: 200 + 8*e + i
+        self._reg_points(self.g, self.qp, 0, NE)
+        self._pad(self.preg, 10)
+        self._reg_points(self.gt, self.qp, 10, 2)
+        self._pad(self.preg, 20)
+        self._reg_points(self.gs, self.qp, 20, 2)
+        self._pad(self.preg, 100)
         for e in range(NE):
-            gp = self.grid.data.local2global(e, self.qp)
-            for q in range(NQ):
-                assert self.preg.point(list(gp[:, q])) == e * NQ + q
+            gp = self.g.data.local2global(e, self.stp)
+            for i in range(8):
+                assert self.preg.point(list(gp[:, i])) == 100 + 8 * e + i
+        self._pad(self.preg, 200)
         for e in range(NE):
-            assert self.nreg.point(list(self.grid.data.normals[e] * self.nmt[e])) == e
+            gp = self.g.data.local2global(e, self.ssp)
+            for i in range(8):
+                assert self.preg.point(list(gp[:, i])) == 200 + 8 * e + i
+        # normals: same grid test e -> e, trial e -> 3+e; grid t test -> 10+e; grid s trial -> 20+e; zero normal -> 30
         for e in range(NE):
-            assert self.nreg.point(list(self.grid.data.normals[e] * self.nms[e])) == NE + e
+            assert self.nreg.point(list(self.g.data.normals[e] * self.nmt[e])) == e
+        for e in range(NE):
+            assert self.nreg.point(list(self.g.data.normals[e] * self.nms[e])) == NE + e
+        self._pad(self.nreg, 10)
+        for e in range(2):
+            assert self.nreg.point(list(self.gt.data.normals[e] * self.nmt[e])) == 10 + e
+        self._pad(self.nreg, 20)
+        for e in range(2):
+            assert self.nreg.point(list(self.gs.data.normals[e] * self.nms[e])) == 20 + e
+        self._pad(self.nreg, 30)
+        assert self.nreg.point([0.0, 0.0, 0.0]) == 30
+
+    @staticmethod
+    def _pad(reg, upto):
+        while len(reg.terms) < upto:
+            reg.id(("pad", len(reg.terms)))
+
+    def _reg_points(self, grid, pts, base, ne):
+        for e in range(ne):
+            gp = grid.data.local2global(e, pts)
+            for q in range(pts.shape[1]):
+                assert self.preg.point(list(gp[:, q])) == base + e * pts.shape[1] + q
+
+    def shape(self, sp):
+        f = self.sh._SHAPESETS[sp.shape_name]["evaluate"]
+        return getattr(f, "py_func", f)
 
 
-class Kstub(at.KernelStub):
-    def __init__(self, cfg, name="Kf"):
-        self.cfg, self.name, self.calls = cfg, name, 0
+class Kstub:
+    def __init__(self, env, name="Kf", cplx=False):
+        self.env, self.name, self.cplx, self.calls = env, name, cplx, 0
 
     def __call__(self, test_points, trial_points, test_normal, trial_normals, params):
         self.calls += 1
-        c = self.cfg
+        c = self.env
         tp = np.asarray(test_points, dtype=object)
         yp = np.asarray(trial_points, dtype=object)
         tn = np.asarray(trial_normals, dtype=object)
@@ -109,35 +171,112 @@ class Kstub(at.KernelStub):
             x = c.preg.point(list(tp[:, j] if tp.ndim == 2 else tp))
             y = c.preg.point(list(yp[:, j]))
             ny = c.nreg.point(list(tn[:, j] if tn.ndim == 2 else tn))
-            out[j] = st.Sym.var(f"{self.name}_{x}_{y}_{nx}_{ny}")
+            if self.cplx:
+                out[j] = st.CSym(st.Sym.var(f"{self.name}re_{x}_{y}_{nx}_{ny}"), st.Sym.var(f"{self.name}im_{x}_{y}_{nx}_{ny}"))
+            else:
+                out[j] = st.Sym.var(f"{self.name}_{x}_{y}_{nx}_{ny}")
         return out
 
 
-def trace_regular(cfg, test_elems=(0, 2), trial_elems=(0, 1, 2)):
-    nk, sh = cfg.nk, cfg.sh
-    result = at.zeros((NV, NE))
-    K = Kstub(cfg)
-    p1 = sh._SHAPESETS["p1_discontinuous"]["evaluate"].py_func
-    p0 = sh._SHAPESETS["p0_discontinuous"]["evaluate"].py_func
-    f = getattr(nk.default_scalar_regular_kernel, "py_func", nk.default_scalar_regular_kernel)
+def _py(f):
+    return getattr(f, "py_func", f)
+
+
+def trace_boundary_regular(env, fname, tk, sk, two_grids=False, test_elems=(0, 2), trial_elems=(0, 1, 2)):
+    nk = env.nk
+    if two_grids:
+        gT, gS, eT, eS = env.gt, env.gs, ELEMS_T, ELEMS_S
+        test_elems, trial_elems = (0, 1), (0, 1)
+    else:
+        gT = gS = env.g
+        eT = eS = ELEMS
+    Tsp, Ssp = Space(tk, eT, "test"), Space(sk, eS, "trial")
+    result = at.zeros((Tsp.ndofs, Ssp.ndofs))
+    K = Kstub(env)
     with at.pyfuncs(nk):
-        f(cfg.grid.data, cfg.grid.data, 3, 1, np.array(test_elems), np.array(trial_elems), cfg.mt, cfg.ms,
-          cfg.l2g_test, cfg.l2g_trial, cfg.nmt, cfg.nms, cfg.qp, cfg.qw, K,
-          np.array([0.0, 0.0], dtype=object), True, p1, p0, result)
-    return result
+        _py(getattr(nk, fname))(gT.data, gS.data, Tsp.nshape, Ssp.nshape, np.array(test_elems), np.array(trial_elems),
+                                Tsp.mult, Ssp.mult, Tsp.l2g, Ssp.l2g, env.nmt, env.nms, env.qp, env.qw, K,
+                                np.array([0.0, 0.0], dtype=object), not two_grids, env.shape(Tsp), env.shape(Ssp), result)
+    return result, Tsp, Ssp
+
+
+SING_PAIRS = [  # (test element, trial element, test offset, trial offset, weights offset, npoints)
+    (0, 0, 0, 0, 0, 2),
+    (0, 1, 2, 5, 3, 2),
+    (1, 0, 5, 2, 3, 2),
+]
+
+
+def trace_singular(env, fname, tk, sk):
+    nk = env.nk
+    Tsp, Ssp = Space(tk, ELEMS, "test"), Space(sk, ELEMS, "trial")
+    P = np.array(SING_PAIRS)
+    result = at.zeros((Tsp.nshape * Ssp.nshape * len(SING_PAIRS),))
+    K = Kstub(env, name="Ks")
+    with at.pyfuncs(nk):
+        _py(getattr(nk, fname))(env.g.data, env.stp, env.ssp, env.sw, P[:, 0], P[:, 1], P[:, 2], P[:, 3], P[:, 4], P[:, 5],
+                                env.nmt, env.nms, Tsp.nshape, Ssp.nshape, env.shape(Tsp), env.shape(Ssp), K,
+                                np.array([0.0, 0.0], dtype=object), result)
+    return result, Tsp, Ssp
+
+
+def trace_potential(env, sk, support=(0, 1)):
+    """Scalar potential of a density on grid `s`, evaluated at the regular quadrature points of grid `t`."""
+    nk = env.nk
+    Ssp = Space(sk, ELEMS_S, "trial")
+    pts = np.hstack([env.gt.data.local2global(e, env.qp) for e in range(2)])
+    coef = at.atoms((Ssp.nshape * 2,), "coef_{0}")
+    K = Kstub(env)
+    with at.pyfuncs(nk):
+        out = _py(nk.default_scalar_potential_kernel)(np.dtype(object), np.dtype(object), 1, pts, coef, env.gs.data, env.qp,
+                                                       env.qw, Ssp.nshape, env.shape(Ssp), K,
+                                                       np.array([0.0, 0.0], dtype=object), env.nms, np.array(support))
+    return np.asarray(out, dtype=object), Ssp
+
+
+def trace_sparse_identity(env, tk, sk, elements=(0, 2)):
+    nk, sm = env.nk, env.spacemod
+    Tsp, Ssp = Space(tk, ELEMS, "test"), Space(sk, ELEMS, "trial")
+    result = at.zeros((Tsp.nshape * Ssp.nshape * len(elements),))
+    ev = _py(sm._numba_evaluate)
+    with at.pyfuncs(nk):
+        _py(nk.default_sparse_kernel)(env.g.data, Tsp.nshape, Ssp.nshape, np.array(elements), env.qp, env.qw, env.nmt, env.nms,
+                                      Tsp.mult, Ssp.mult, env.shape(Tsp), env.shape(Ssp), ev, ev,
+                                      _py(nk.l2_identity_kernel), result)
+    return result, Tsp, Ssp
+
+
+# ------------------------------------------------------------------------------------------------
 
 
 def generate():
     try:
-        cfg = Config()
-        reg = trace_regular(cfg)
-    except (st.TraceError, AssertionError, AttributeError, TypeError, IndexError, ValueError) as e:
+        env = Env()
+        reg_p1_dp0, Tp1, Sdp0 = trace_boundary_regular(env, "default_scalar_regular_kernel", "p1", "dp0")
+        reg_dp0_dp0, _, _ = trace_boundary_regular(env, "default_scalar_regular_kernel", "dp0", "dp0")
+        hyp_p1_p1, _, _ = trace_boundary_regular(env, "laplace_hypersingular_regular", "p1", "p1")
+        dis_p1_dp1, _, _ = trace_boundary_regular(env, "default_scalar_regular_kernel", "p1", "dp1", two_grids=True)
+        sing_p1_dp0, _, _ = trace_singular(env, "default_scalar_singular_kernel", "p1", "dp0")
+        hsing_p1_p1, _, _ = trace_singular(env, "laplace_hypersingular_singular", "p1", "p1")
+        sing_dp0_dp0, _, _ = trace_singular(env, "default_scalar_singular_kernel", "dp0", "dp0")
+        pot_dp1, _ = trace_potential(env, "dp1")
+        ident_p1_dp0, _, _ = trace_sparse_identity(env, "p1", "dp0")
+    except (st.TraceError, AssertionError, AttributeError, TypeError, IndexError, ValueError, KeyError) as e:
         raise GenError(f"assembler tracing failed: {type(e).__name__}: {e}")
+    fams = {
+        "regular": reg_p1_dp0, "regdp0": reg_dp0_dp0, "hyp": hyp_p1_p1, "dis": dis_p1_dp1,
+        "sing": sing_p1_dp0.reshape(-1, 1), "hsing": hsing_p1_p1.reshape(-1, 1), "singdp0": sing_dp0_dp0.reshape(-1, 1),
+        "pot": pot_dp1.reshape(-1, 1), "ident": ident_p1_dp0.reshape(-1, 1),
+    }
     entries = {}
-    for r in range(NV):
-        for c in range(NE):
-            entries[("regular", r, c)] = st.Sym.lift(reg[r, c]).t
-    ar = atom_sig(entries.values())
+    for fam, arr in fams.items():
+        for r in range(arr.shape[0]):
+            for c in range(arr.shape[1]):
+                entries[(fam, r, c)] = st.Sym.lift(arr[r, c]).t
+    ar = atom_arities(entries.values())
+    # atoms that the theorems mention even if a trace does not use them
+    for name, n in (("N", 2), ("JIT", 3), ("nmt", 1), ("nms", 1), ("coef", 1), ("ssu", 1), ("ssv", 1)):
+        ar.setdefault(name, n)
     B = binders(ar)
     names = " ".join(sorted(ar))
     L = ["-- GENERATED by props/asm_gen.py by tracing the assembly functions of bempp_cl/core/numba_kernels.py -- do not edit",
@@ -145,12 +284,33 @@ def generate():
          "namespace BemppVerif.Gen.AsmTraces",
          "set_option linter.unusedVariables false",
          ""]
-    for (kind, r, c), t in sorted(entries.items()):
-        L.append(f"def {kind}_{r}_{c} {{K : Type}} [Field K] {B} : K :=\n  " + lean_term(t))
+    for (fam, r, c), t in sorted(entries.items()):
+        L.append(f"def {fam}_{r}_{c} {{K : Type}} [Field K] {B} : K :=\n  " + lean_term(t))
     L += ["end BemppVerif.Gen.AsmTraces", ""]
     ch1 = T.write_if_changed(os.path.join(LEAN, "BemppVerif/Gen/AsmTraces.lean"), "\n".join(L))
-    # --- matching theorems
-    M = ["-- GENERATED by props/asm_gen.py -- do not edit.  Model/Asm.lean instantiated at the traced configuration = trace.",
+
+    # ---------------------------------------------------------------- matching theorems
+    def table(name, arr):
+        out = [f"def {name} : Nat → Nat → Nat := fun e i =>\n  match e, i with"]
+        for e in range(arr.shape[1]):
+            for i in range(3):
+                out.append(f"  | {e}, {i} => {int(arr[i, e])}")
+        out.append("  | _, _ => 0")
+        return "\n".join(out)
+
+    adj = [[bool(set(ELEMS[:, a]) & set(ELEMS[:, b])) for b in range(NE)] for a in range(NE)]
+    adjdef = ["def adjacent : Nat → Nat → Bool := fun a b =>\n  match a, b with"]
+    for a in range(NE):
+        for b in range(NE):
+            adjdef.append(f"  | {a}, {b} => {'true' if adj[a][b] else 'false'}")
+    adjdef.append("  | _, _ => false")
+    SIMP = ("entry, regularLaunch, localReg, localSing, potential, localIdentity, rsum, lsum, List.range, List.range.loop, "
+            "p1shape, nb_shape_p1_discontinuous_c0_f0, nb_shape_p1_discontinuous_c0_f1, nb_shape_p1_discontinuous_c0_f2, "
+            "nb_shape_p0_discontinuous_c0_f0, adjacent, elems, elemsT, elemsS, curlT, curlS, cross, refGrad, surfGrad, "
+            "-mul_eq_mul_right_iff, -mul_eq_mul_left_iff, -mul_eq_zero, -zero_eq_mul")
+    M = ["-- GENERATED by props/asm_gen.py -- do not edit.",
+         "-- (a) Model/Asm.lean instantiated at the traced configuration = trace of the real assembler;",
+         "-- (b) trace-level identities between different assemblers.",
          "import BemppVerif.Gen.AsmTraces",
          "import BemppVerif.Gen.FmmKernels",
          "import BemppVerif.Model.Asm",
@@ -158,59 +318,130 @@ def generate():
          "namespace BemppVerif.AsmMatch",
          "open BemppVerif.Model.Asm BemppVerif.Gen.AsmTraces BemppVerif.Gen.FmmKernels",
          "set_option linter.unusedVariables false",
+         "set_option linter.unusedSimpArgs false",
          "",
-         "/-- element table of the traced configuration -/",
-         "def elems : Nat → Nat → Nat := fun e i =>",
-         "  match e, i with",
+         "/-- element tables of the traced configurations -/",
+         table("elems", ELEMS), table("elemsT", ELEMS_T), table("elemsS", ELEMS_S),
+         "/-- `elements_adjacent` on the same-grid configuration (computed from the element table) -/",
+         "\n".join(adjdef),
+         "def p1shape {K : Type} [Field K] (i : Nat) (u v : K) : K :=\n  match i with\n"
+         "  | 0 => nb_shape_p1_discontinuous_c0_f0 u v\n  | 1 => nb_shape_p1_discontinuous_c0_f1 u v\n"
+         "  | _ => nb_shape_p1_discontinuous_c0_f2 u v",
+         "/-- reference gradients of the P1 shape functions: (-1,-1), (1,0), (0,1) -/",
+         "def refGrad {K : Type} [Field K] (i a : Nat) : K :=\n  match i, a with\n  | 0, _ => -1\n  | 1, 0 => 1\n  | 2, 1 => 1\n  | _, _ => 0",
+         "/-- surface gradient `jac_inv_trans[e] @ reference_gradient[:, i]`, component c -/",
+         "def surfGrad {K : Type} [Field K] (JIT : Nat → Nat → Nat → K) (e i c : Nat) : K :=\n  JIT e c 0 * refGrad i 0 + JIT e c 1 * refGrad i 1",
+         "def cross {K : Type} [Field K] (a b : Nat → K) (c : Nat) : K :=\n  match c with\n  | 0 => a 1 * b 2 - a 2 * b 1\n  | 1 => a 2 * b 0 - a 0 * b 2\n  | _ => a 0 * b 1 - a 1 * b 0",
+         "/-- surface curl of P1 shape function i on element e: `(n_e × grad_i) * normal_multiplier_e` -/",
+         "def curlT {K : Type} [Field K] (N : Nat → Nat → K) (JIT : Nat → Nat → Nat → K) (nmt : Nat → K) (e i c : Nat) : K :=\n"
+         "  cross (N e) (surfGrad JIT e i) c * nmt e",
+         "def curlS {K : Type} [Field K] (N : Nat → Nat → K) (JIT : Nat → Nat → Nat → K) (nms : Nat → K) (e i c : Nat) : K :=\n"
+         "  cross (N e) (surfGrad JIT e i) c * nms e",
          ]
-    for e in range(NE):
-        for i in range(3):
-            M.append(f"  | {e}, {i} => {int(ELEMS[i, e])}")
-    M.append("  | _, _ => 0")
-    M.append("/-- `elements_adjacent` on the traced configuration (computed from the element table) -/")
-    adj = [[bool(set(ELEMS[:, a]) & set(ELEMS[:, b])) for b in range(NE)] for a in range(NE)]
-    M.append("def adjacent : Nat → Nat → Bool := fun a b =>\n  match a, b with")
-    for a in range(NE):
-        for b in range(NE):
-            M.append(f"  | {a}, {b} => {'true' if adj[a][b] else 'false'}")
-    M.append("  | _, _ => false")
-    M.append("def p1shape {K : Type} [Field K] (i : Nat) (u v : K) : K :=\n  match i with\n"
-             "  | 0 => nb_shape_p1_discontinuous_c0_f0 u v\n  | 1 => nb_shape_p1_discontinuous_c0_f1 u v\n"
-             "  | _ => nb_shape_p1_discontinuous_c0_f2 u v")
-    M.append(f"""
-section
-variable {{K : Type}} [Field K] {B}
-
-/-- the model's data record for the traced configuration -/
-def regData : RegData K :=
-  {{ nq := {NQ}, w := qw, ieT := ie, ieS := ie,
-    phiT := fun i p => p1shape i (qu p) (qv p),
-    phiS := fun _ _ => nb_shape_p0_discontinuous_c0_f0 (qu 0) (qv 0),
-    K := fun τ p σ q => Kf (τ * {NQ} + p) (σ * {NQ} + q) τ ({NE} + σ),
-    adjacent := adjacent }}
-def testSpace : SpaceData K := ⟨3, elems, mt⟩
-def trialSpace : SpaceData K := ⟨1, fun e _ => e, ms⟩
-""")
+    SECTION = f"section\nvariable {{K : Type}} [Field K] {B}\n"
     thms = []
-    for (kind, r, c), t in sorted(entries.items()):
-        tn = f"regular_matches_trace_{r}_{c}"
-        M.append(f"theorem {tn} :\n    entry (regularLaunch (regData {names_for(ar, 'regData')}) (testSpace {names_for(ar, 'testSpace')}) "
-                 f"(trialSpace {names_for(ar, 'trialSpace')}) [0, 2] [0, 1, 2]) {r} {c}\n      = {kind}_{r}_{c} {names} := by\n"
-                 f"  simp [entry, regularLaunch, localReg, rsum, lsum, regData, testSpace, trialSpace, adjacent, elems, p1shape,\n"
-                 f"    nb_shape_p1_discontinuous_c0_f0, nb_shape_p1_discontinuous_c0_f1, nb_shape_p1_discontinuous_c0_f2,\n"
-                 f"    nb_shape_p0_discontinuous_c0_f0, List.range, List.range.loop, {kind}_{r}_{c},\n"
-                 f"    -mul_eq_mul_right_iff, -mul_eq_mul_left_iff, -mul_eq_zero, -zero_eq_mul, -mul_eq_mul_left_iff]\n  try ring")
+    groups = {}
+
+    def add(tn, stmt, extra=""):
+        intro = "  intro Kg\n" if stmt.startswith("∀ Kg") else ""
+        grp = tn.split("_")[0] + ("_" + tn.split("_")[1] if tn.startswith("hyp_") else "")
+        groups.setdefault(grp, []).append(
+            f"theorem {tn} :\n    {stmt} := by\n{intro}  simp [{SIMP}{extra}]\n  try ring")
         thms.append(f"BemppVerif.AsmMatch.{tn}")
-    M += ["end", "end BemppVerif.AsmMatch", ""]
-    ch2 = T.write_if_changed(os.path.join(LEAN, "BemppVerif/Gen/AsmMatch.lean"), "\n".join(M))
-    return dict(entries=len(entries), changed=[ch1, ch2]), thms
 
-
-def names_for(ar, what):
-    # section variables are auto-bound in definitions only when used; pass exactly the ones each def uses
-    used = {"regData": ["Kf", "ie", "qu", "qv", "qw"], "testSpace": ["mt"], "trialSpace": ["ms"]}[what]
-    return " ".join(n for n in sorted(ar) if n in used)
+    # (a1) regular launch
+    regD = (f"({{ nq := {NQ}, w := qw, ieT := ie, ieS := ie, phiT := fun i p => p1shape i (qu p) (qv p), "
+            f"phiS := fun _ _ => nb_shape_p0_discontinuous_c0_f0 (qu 0) (qv 0), "
+            f"K := fun τ p σ q => Kf (τ * {NQ} + p) (σ * {NQ} + q) τ ({NE} + σ), adjacent := adjacent }} : RegData K)")
+    Tsp = "(⟨3, elems, mt⟩ : SpaceData K)"
+    Ssp = "(⟨1, fun e _ => e, ms⟩ : SpaceData K)"
+    for r in range(NV):
+        for c in range(NE):
+            add(f"regular_matches_trace_{r}_{c}",
+                f"entry (regularLaunch {regD} {Tsp} {Ssp} [0, 2] [0, 1, 2]) {r} {c}\n      = regular_{r}_{c} {names}",
+                f", regular_{r}_{c}")
+    # (a2) singular local integrals (slot = 3*pair + i for p1 x dp0)
+    singD = ("({ w := sw, ie := ie, phiT := fun i q => p1shape i (stu q) (stv q), "
+             "phiS := fun _ q => nb_shape_p0_discontinuous_c0_f0 (ssu q) (ssv q), "
+             "K := fun τ p σ q => Ks (100 + 8 * τ + p) (200 + 8 * σ + q) τ (3 + σ) } : SingData K)")
+    for k, pr in enumerate(SING_PAIRS):
+        for i in range(3):
+            slot = 3 * k + i
+            add(f"singular_matches_trace_{k}_{i}",
+                f"localSing {singD} ⟨{pr[0]}, {pr[1]}, {pr[2]}, {pr[3]}, {pr[4]}, {pr[5]}⟩ {i} 0\n      = sing_{slot}_0 {names}",
+                f", sing_{slot}_0")
+    # (a3) potential at the 4 evaluation points (regular quadrature points of grid t), density space dp1 on grid s
+    potD = (f"({{ nq := {NQ}, w := qw, ie := ies, phi := fun j q => p1shape j (qu q) (qv q), "
+            f"K := fun x σ q => Kf (10 + x) (20 + σ * {NQ} + q) 30 (20 + σ) }} : PotData K)")
+    for x in range(4):
+        add(f"potential_matches_trace_{x}",
+            f"potential {potD} 3 [0, 1] coef {x} = pot_{x}_0 {names}", f", pot_{x}_0")
+    # (a4) sparse identity slots (p1 x dp0, elements [0,2]); the basis evaluators multiply by the multipliers
+    spD = (f"({{ nq := {NQ}, w := qw, ie := ie, valT := fun e i q => p1shape i (qu q) (qv q) * mt e i, "
+           f"valS := fun e j q => nb_shape_p0_discontinuous_c0_f0 (qu q) (qv q) * ms e j }} : SparseData K)")
+    for k, e in enumerate((0, 2)):
+        for i in range(3):
+            add(f"identity_matches_trace_{k}_{i}",
+                f"localIdentity {spD} {e} {i} 0 = ident_{3 * k + i}_0 {names}", f", ident_{3 * k + i}_0")
+    # (b1) hypersingular regular = curl·curl × single layer on the element-wise constant space (C06, Laplace)
+    regdp0_names = ", ".join(f"regdp0_{a}_{b}" for a in range(NE) for b in range(NE))
+    for r in range(NV):
+        for c in range(NV):
+            terms = []
+            for tau in (0, 2):
+                for sig in (0, 1, 2):
+                    for i in range(3):
+                        for j in range(3):
+                            if ELEMS[i, tau] == r and ELEMS[j, sig] == c:
+                                dot = " + ".join(f"curlT N JIT nmt {tau} {i} {d} * curlS N JIT nms {sig} {j} {d}" for d in range(3))
+                                terms.append(f"({dot}) * (mt {tau} {i} * ms {sig} {j}) * regdp0_{tau}_{sig} "
+                                             + " ".join(n if n not in ("mt", "ms") else "(fun _ _ => 1)" for n in sorted(ar)))
+            rhs = " +\n        ".join(terms) if terms else "0"
+            add(f"hyp_regular_is_curl_curl_sl_{r}_{c}", f"hyp_{r}_{c} {names}\n      = {rhs}", f", hyp_{r}_{c}, {regdp0_names}")
+    # (b2) hypersingular singular local integral = curl·curl × single layer singular local integral (dp0 x dp0)
+    for k, pr in enumerate(SING_PAIRS):
+        for i in range(3):
+            for j in range(3):
+                dot = " + ".join(f"curlT N JIT nmt {pr[0]} {i} {d} * curlS N JIT nms {pr[1]} {j} {d}" for d in range(3))
+                add(f"hyp_singular_is_curl_curl_sl_{k}_{i}_{j}",
+                    f"hsing_{9 * k + 3 * i + j}_0 {names} = ({dot}) * singdp0_{k}_0 {names}",
+                    f", hsing_{9 * k + 3 * i + j}_0, singdp0_{k}_0")
+    # (b3) boundary operator between two grids = Galerkin-tested potential (C07):  dis[r, c] =
+    #      Σ_τ Σ_i [l2g τ i = r] mt τ i Σ_p w_p ie_τ φ_i(p) · Pot(x_{τ,p}; coef = column c of the trial space's full-grid map)
+    for r in range(4):
+        for c in range(6):
+            sig, j = divmod(c, 3)
+            terms = []
+            for tau in (0, 1):
+                for i in range(3):
+                    if ELEMS_T[i, tau] == r:
+                        for p in range(NQ):
+                            potargs = " ".join(n if n != "coef" else f"(fun a => if a = {c} then ms {sig} {j} else 0)"
+                                               for n in sorted(ar))
+                            terms.append(f"mt {tau} {i} * (qw {p} * iet {tau} * p1shape {i} (qu {p}) (qv {p})) * pot_{tau * NQ + p}_0 {potargs}")
+            rhs = " +\n        ".join(terms) if terms else "0"
+            rhs = rhs.replace(" Kf ", " (fun x y _ ny => Kg x y ny) ")
+            lhs_names = names.replace(" Kf ", " (fun x y _ ny => Kg x y ny) ")
+            add(f"two_grid_operator_is_tested_potential_{r}_{c}",
+                f"∀ Kg : Nat → Nat → Nat → K, dis_{r}_{c} {lhs_names}\n      = {rhs}",
+                f", dis_{r}_{c}, " + ", ".join(f"pot_{x}_0" for x in range(4)))
+    M += ["end BemppVerif.AsmMatch", ""]
+    changed = [ch1, T.write_if_changed(os.path.join(LEAN, "BemppVerif/Gen/AsmMatchDefs.lean"), "\n".join(M))]
+    imports = []
+    for grp, items in sorted(groups.items()):
+        mod = "AsmMatch" + "".join(w.capitalize() for w in grp.split("_"))
+        body = ["-- GENERATED by props/asm_gen.py -- do not edit.", "import BemppVerif.Gen.AsmMatchDefs",
+                "namespace BemppVerif.AsmMatch",
+                "open BemppVerif.Model.Asm BemppVerif.Gen.AsmTraces BemppVerif.Gen.FmmKernels",
+                "set_option linter.unusedVariables false", "set_option linter.unusedSimpArgs false", "", SECTION]
+        body += items + ["end", "end BemppVerif.AsmMatch", ""]
+        changed.append(T.write_if_changed(os.path.join(LEAN, f"BemppVerif/Gen/{mod}.lean"), "\n".join(body)))
+        imports.append(f"import BemppVerif.Gen.{mod}")
+    changed.append(T.write_if_changed(os.path.join(LEAN, "BemppVerif/Gen/AsmMatch.lean"),
+                                      "-- GENERATED by props/asm_gen.py -- do not edit.\n" + "\n".join(imports) + "\n"))
+    return dict(entries=len(entries), theorems=len(thms), changed=changed, atoms=sorted(ar), groups=sorted(groups)), thms
 
 
 if __name__ == "__main__":
-    print(generate())
+    info, thms = generate()
+    print(info)
